@@ -67,6 +67,13 @@ type Result struct {
 	LastSolverErr string                   `json:"last_solver_error,omitempty"`
 }
 
+type harnessFile struct {
+	path string
+	src  []byte
+}
+
+var harnessSrc []harnessFile
+
 var pkgRe = regexp.MustCompile(`(?m)^package (\w+)`)
 var stubRe = regexp.MustCompile(`(?m)^//verif:stub\s+(\S.*\S)\s+(verifStub\w+)\s*$`)
 
@@ -111,14 +118,26 @@ func main() {
 		if !strings.HasPrefix(base, "zz_verif_") {
 			base = "zz_verif_" + base
 		}
-		overlay[filepath.Join(absDir, base)] = src
+		harnessSrc = append(harnessSrc, harnessFile{filepath.Join(absDir, base), src})
 		for _, mm := range stubRe.FindAllStringSubmatch(string(src), -1) {
 			stubs[mm[1]] = mm[2]
 		}
 	}
+	var pkgName string
+	for _, h := range harnessSrc {
+		if pk := pkgRe.FindSubmatch(h.src); pk != nil && string(pk[1]) != "VERIFPKG" {
+			pkgName = string(pk[1])
+			break
+		}
+	}
+	for _, h := range harnessSrc {
+		overlay[h.path] = []byte(strings.Replace(string(h.src), "package VERIFPKG", "package "+pkgName, 1))
+	}
 	if *rt != "" && len(harnessFiles) > 0 {
-		first, _ := os.ReadFile(harnessFiles[0])
-		pk := pkgRe.FindSubmatch(first)
+		pk := [][]byte{nil, []byte(pkgName)}
+		if pkgName == "" {
+			pk = nil
+		}
 		tmpl, err := os.ReadFile(*rt)
 		if err != nil || pk == nil {
 			fmt.Fprintln(os.Stderr, "rt template:", err)
